@@ -2,7 +2,14 @@ package l4proxy
 
 // Verification shim (injected by overlay; never committed to the repository).
 
-import "sync/atomic"
+import (
+	"context"
+	"sync/atomic"
+	"time"
+
+	"github.com/caddyserver/caddy/v2"
+	"go.uber.org/zap"
+)
 
 // VerifPeerState is the externally visible state of one peer.
 type VerifPeerState struct {
@@ -38,3 +45,37 @@ func VerifPeerState_(u *Upstream, i int) VerifPeerState {
 	return VerifPeerState{NumConns: atomic.LoadInt32(&p.numConns), Unhealthy: atomic.LoadInt32(&p.unhealthy), Fails: atomic.LoadInt32(&p.fails)}
 }
 func VerifHash(s string) uint32 { return hash(s) }
+
+// VerifNewHandler builds a provisioned proxy handler without Caddy's module loader.
+func VerifNewHandler(ups UpstreamPool, sel Selector, tryDuration, tryInterval time.Duration, passive *PassiveHealthChecks, ppVersion uint8) *Handler {
+	h := &Handler{Upstreams: ups, proxyProtocolVersion: ppVersion, logger: zap.NewNop(), ctx: caddy.Context{Context: context.Background()},
+		LoadBalancing: &LoadBalancing{SelectionPolicy: sel, TryDuration: caddy.Duration(tryDuration), TryInterval: caddy.Duration(tryInterval)}}
+	if passive != nil {
+		passive.logger = zap.NewNop()
+		h.HealthChecks = &HealthChecks{Passive: passive}
+		for _, u := range ups {
+			u.healthCheckPolicy = passive
+			if passive.UnhealthyConnectionCount > 0 && u.MaxConnections == 0 {
+				u.MaxConnections = passive.UnhealthyConnectionCount
+			}
+		}
+	}
+	return h
+}
+
+// VerifSetAddr gives peer i of u a dial address.
+func VerifSetAddr(u *Upstream, i int, network, host string, port uint) {
+	u.peers[i].address = caddy.NetworkAddress{Network: network, Host: host, StartPort: port, EndPort: port}
+}
+
+// VerifActiveCheck runs one active health check of peer i of u.
+func VerifActiveCheck(h *Handler, u *Upstream, i int, timeout time.Duration) error {
+	if h.HealthChecks == nil {
+		h.HealthChecks = &HealthChecks{}
+	}
+	h.HealthChecks.Active = &ActiveHealthChecks{Timeout: caddy.Duration(timeout), logger: zap.NewNop()}
+	return h.doActiveHealthCheck(u.peers[i])
+}
+
+func VerifCountFailure(h *Handler, u *Upstream, i int) { h.countFailure(u.peers[i]) }
+func VerifHealthy(u *Upstream) bool                   { return u.healthy() }
